@@ -220,6 +220,31 @@ def case_dump_one(case):
                     viols.append(_v("repeated-dump-differs", f"dump_one({fmt}, allow_changes={allow}): the second dump of the same object "
                                     f"produced different bytes ({len(outs[0])} vs {len(outs[1])} bytes)"))
             featlist.append(f"dump_one:{fmt}:{feats.get('klass')}:allow={allow}:{outcome}:converted={res is not data if outcome == 'returned' else '-'}")
+        # the same object edited by its owner after a converting dump (other exponents in one shell, the shells of one atom moved
+        # to another) and dumped again: the conversion must be one of the object as it is now
+        if outcome == "returned" and res is not data and data.obasis is not None and data.obasis.shells:
+            from iodata.basis import Shell
+
+            sh = data.obasis.shells[-1]
+            edit = case["i"] % 2
+            if edit == 0:
+                data.obasis.shells[-1] = Shell(sh.icenter, sh.angmoms, sh.kinds, sh.exponents * 2.0, sh.coeffs)
+            else:
+                sh.exponents = sh.exponents * 0.5
+            path = os.path.join(root, go.filename(fmt, "edited"))
+            with warnings.catch_warnings(record=True) as wl:
+                warnings.simplefilter("always")
+                try:
+                    res2 = iodata.dump_one(data, path, fmt=go.explicit_fmt(fmt), allow_changes=True)
+                except (PrepareDumpError, DumpError):
+                    res2 = None
+            counters["dump_calls"] += 1
+            counters["edited_redumps"] = 1
+            if res2 is not None:
+                for msg in equivalent(data, res2, rng):
+                    viols.append(_v("conversion-not-equivalent", f"dump_one({fmt}, allow_changes=True) of the object after its owner "
+                                    f"{'replaced a shell' if edit == 0 else 'assigned other exponents to a shell'}: {msg}"))
+            featlist.append(f"dump_one:{fmt}:edited-redump:{'returned' if res2 is not None else 'refused'}")
     finally:
         shutil.rmtree(root, ignore_errors=True)
     return viols, featlist, counters, {k: feats[k] for k in list(feats)[:8]}
